@@ -544,9 +544,13 @@ func c16NilResults(p *load.Prog, r *oblig.Run) {
 				if !ok || len(ret.Results) != 2 {
 					continue
 				}
-				vals := []ssa.Value{ret.Results[0]}
+				rv := ret.Results[0]
+				if mi, isMI := rv.(*ssa.MakeInterface); isMI {
+					rv = mi.X // `length := 1; if slice { length = in.Len() }; return length`
+				}
+				vals := []ssa.Value{rv}
 				blks := []*ssa.BasicBlock{b}
-				if ph, isPhi := ret.Results[0].(*ssa.Phi); isPhi && ph.Block() == b {
+				if ph, isPhi := rv.(*ssa.Phi); isPhi && ph.Block() == b {
 					vals, blks = ph.Edges, b.Preds
 				}
 				for i, v := range vals {
